@@ -470,6 +470,8 @@ class IntervalTier(textgrid_tier.TextgridTier):
             interval = Interval(*entry)
         else:
             interval = entry
+        # Labels are stored without surrounding whitespace (as in the constructor)
+        interval = Interval(interval.start, interval.end, interval.label.strip())
 
         matchList = self.crop(
             interval.start, interval.end, CropCollision.LAX, False
